@@ -87,6 +87,7 @@ type c14Fn struct {
 	recv    types.Object   // receiver variable, or nil
 	params  []types.Object // parameter variables in order (nil for unnamed/blank)
 	nres    int
+	results []types.Object // named result variables (nil entries when unnamed)
 	g       *cfg.CFG
 	par     map[ast.Node]ast.Node
 	name    string
@@ -168,6 +169,14 @@ func (e *c14Eng) mkFn(pk *packages.Package, body *ast.BlockStmt, ftype *ast.Func
 	}
 	if ftype.Results != nil {
 		f.nres = ftype.Results.NumFields()
+		for _, fld := range ftype.Results.List {
+			if len(fld.Names) == 0 {
+				f.results = append(f.results, nil)
+			}
+			for _, nm := range fld.Names {
+				f.results = append(f.results, info.Defs[nm])
+			}
+		}
 	}
 	f.g = newCFG(info, body)
 	f.par = e.p.Parents(e.p.FileOf(pk, body.Pos()))
@@ -394,6 +403,8 @@ type c14Graph struct {
 	forced    ast.Expr // the boolean expression whose value is fixed while a splitting node is executed
 	forcedVal int8
 
-	valMemo  map[string]*c14Val
-	valDepth int
+	valMemo map[string]*c14Val
+	// fromStates restricts, while a call result is resolved, the states of a return statement to those that reach the use
+	fromStates map[*c14Node][]*c14State
+	valDepth   int
 }
